@@ -351,6 +351,14 @@ func build(g *Graph) *built {
 		}
 		if d.Result {
 			id := "application/vnd.c13." + strings.ToLower(d.Key)
+			// "near" names (enum.go nearNames): the identifiers of the two result types
+			// differ only by their suffix, as those of two renderings of one media type do.
+			switch d.TypeName {
+			case nearNames[0]:
+				id = "application/vnd.c13.near+json"
+			case nearNames[1]:
+				id = "application/vnd.c13.near+xml"
+			}
 			ut.UID = id
 			rt := &expr.ResultTypeExpr{UserTypeExpr: ut, Identifier: id, ContentType: "application/json"}
 			b.defs[d.Key] = rt
